@@ -60,9 +60,11 @@ Definition sorted_mimes (accept : str) : list (str * Z) := sort_ranges (parsed_r
 
 End WithOracle.
 
-(* accessorAt on a registry given by its keys: the exact key, else ANY key contained in the value *)
+(* accessorAt on a registry given by its keys: the exact key, else the first key, in sorted order, that is contained
+   in the value (fix F10; before it the map was ranged over, and ANY contained key could be the answer) *)
 Definition accessor_keys (reg : list str) (mime : str) : list str :=
-  if mem mime reg then [mime] else filter (fun k => contains mime k) reg.
+  if mem mime reg then [mime]
+  else match sort_strs (filter (fun k => contains mime k) reg) with [] => [] | k :: _ => [k] end.
 
 Fixpoint first_nonempty {A} (l : list (list A)) : list A :=
   match l with
